@@ -1,0 +1,37 @@
+//go:build verif
+
+package astitodo
+
+// Contracts checked by /verif (vcgo). Comment-only: no executable code.
+// The top-level postconditions of ParseComment are taken from the property statement (C17):
+// a comment is reported iff its text, after the comment marker and blanks, begins with TODO or FIXME in any letter case.
+
+//@ spec CommentText(t string) bool := HasPrefix(t, "//") || HasPrefix(t, "/*") || HasPrefix(t, "#")
+//@ spec TodoBody(text string) string :=
+//@    (HasPrefix(TrimSpace(text), "//") || HasPrefix(TrimSpace(text), "/*")) ? TrimSpace(TrimSpace(text)[2:]) :
+//@    (HasPrefix(TrimSpace(text), "#") ? TrimSpace(TrimSpace(text)[1:]) : TrimSpace(text))
+//@ spec IsTodoText(b string) bool := HasPrefix(Upper(b), "TODO") || HasPrefix(Upper(b), "FIXME")
+//@ spec MarkLen(b string) int := HasPrefix(Upper(b), "TODO") ? 4 : 5
+//@ spec SkipColon(a string) string := HasPrefix(a, ":") ? TrimSpace(TrimLeft(a, ":")) : a
+//@ spec AfterMark(b string) string := SkipColon(TrimSpace(b[MarkLen(b):]))
+//@ spec MsgClean(t string) string := ReplaceAll(ReplaceAll(ReplaceAll(t, "*/", " "), "*", " "), "\n", " ")
+
+//@ func IsTodoIdentifier
+//@ ensures result1 <==> IsTodoText(s)
+//@ ensures result1 ==> result0 == MarkLen(s)
+//@ ensures !result1 ==> result0 == 0
+//@ loop 1 invariant forall j int :: 0 <= j && j < #i ==> !HasPrefix(Upper(s), todoIdentifiers[j])
+
+//@ func handleForMultipleLine
+//@ ensures result == MsgClean(t)
+
+//@ func ParseComment
+//@ requires token != nil
+//@ requires CommentText(GetText(token))
+//@ ensures (result != nil) <==> IsTodoText(TodoBody(GetText(token)))
+//@ ensures result != nil ==> (*result).Line == GetLine(token) && (*result).Filename == filename
+//@ ensures result != nil && (*result).Assignee == "" ==> (*result).Message == MsgClean(AfterMark(TodoBody(GetText(token))))
+//@ ensures result != nil && (*result).Assignee == "" ==> !ReMatch(AfterMark(TodoBody(GetText(token))), "^\\([\\w \\._\\+\\-@]+\\)")
+//@ ensures result != nil && (*result).Assignee != "" ==> HasPrefix(AfterMark(TodoBody(GetText(token))), "(" + (*result).Assignee + ")")
+//@ ensures result != nil && (*result).Assignee != "" ==>
+//@    (*result).Message == MsgClean(SkipColon(TrimSpace(AfterMark(TodoBody(GetText(token)))[len((*result).Assignee) + 2:])))
